@@ -19,9 +19,11 @@
 
    A program is the list of its clauses in source order (directives are parsed,
    visited and dropped).  Source forms that the visitor or compiler refuses by raising
-   (a head or goal that is not callable, a compound term whose name is a numeral,
-   the `name/arity` term, `true.` as a clause ...) have no AST: the front end
-   model returns an error for them. *)
+   (a head or goal that is not callable, the `name/arity` term, `true.` as a clause ...)
+   have no AST: the front end model returns an error for them.  A compound term or goal
+   whose name is a numeral (`1(a)`: Functor(NumeralTerm, ..)) is kept, under the name
+   backslash ++ digits (no atom of a source text has a backslash in its name): the
+   implementation raises only if the compiler reaches it (Lang/FrontCompile.v). *)
 From Coq Require Import List NArith.
 Import ListNotations.
 From YP Require Import Base.Str.
